@@ -38,12 +38,12 @@ func (r *RaceReport) Touches(sub string) bool {
 			for _, l := range lines {
 				l = strings.TrimSpace(l)
 				if strings.HasPrefix(l, "/") {
+					// the access is attributed to the first frame outside the Go standard library
+					if !(strings.Contains(l, "TarsGo") || strings.HasPrefix(l, Repo()+"/") || strings.HasPrefix(l, Root()+"/") || strings.Contains(l, "/pkg/mod/")) {
+						continue
+					}
 					if strings.Contains(l, sub) {
 						return true
-					}
-					// only the top frame of each access counts; but skip frames of sync/atomic and runtime
-					if strings.Contains(l, "/src/runtime/") || strings.Contains(l, "/src/sync/") || strings.Contains(l, "/src/internal/") {
-						continue
 					}
 					break
 				}
